@@ -26,6 +26,9 @@ SETS = {   # programs and bindings chosen so that every thread's solo result dif
     # matches() with a different pattern in every thread
     "regex": (['s.matches("^web-[0-9]+$") && port > 1024', 's.matches("^db")', 's.matches("[0-9]{3}$")', 's.matches("^x+$") || port < 0'],
               [{"s": "web-12", "port": 8080}, {"s": "db-1", "port": 1}, {"s": "abc123", "port": 2}, {"s": "xxx", "port": 3}]),
+    # the same macro text in every thread, its body reading a variable that every thread binds differently
+    "samemacro": (["[1, 2, 3].map(y, y + k)"] * 4, [{"k": 10}, {"k": 100}, {"k": 1000}, {"k": 5}]),
+    "samemacro2": (["[k, 2, 3].filter(y, [y, k].exists(z, z > k + y))"] * 4, [{"k": 1}, {"k": -7}, {"k": 2}, {"k": 0}]),
     "macro": (["[x, 2].map(y, y * x)", "[x, 3].map(y, y + x)", "[x, 4].map(y, y - x)", "[x, 5].map(y, y + x + x)"],
               [{"x": 2}, {"x": 5}, {"x": 7}, {"x": 11}]),
 }
